@@ -26,7 +26,7 @@ FAULTS = ["none", "listen-error", "dup"]
 # ("srflxNoCloseOnReject" F-C09, "srflxWatcherCloses" F-C09b, "handoffRace" F-C18c) stay available in Gather.tla
 # edges where the tree under test still departs from the property (Gather.tla, AllDefects); VERIF_GATHER_DEFECTS overrides
 # it when a proposed repair is tried out (e.g. VERIF_GATHER_DEFECTS= for a tree with proposed-fix-F-C09c applied)
-ALL_DEFECTS = [d for d in os.environ.get("VERIF_GATHER_DEFECTS", "closeSkipsOld").split(",") if d]
+ALL_DEFECTS = [d for d in os.environ.get("VERIF_GATHER_DEFECTS", "").split(",") if d]
 C09_PREDS = ["CloseAtMostOnce", "NoLeakAfterClose", "NoLeakAfterRestart", "ImmediateOnReject", "ReleasedOnRemoval", "NoHang"]
 C18_CYCLE_PREDS = ["OnceNewGatheringComplete", "NilIffComplete", "RefusedUnlessNew", "NoOverlap", "RestartIsolates", "NoHang"]
 C18_SET_PREDS = ["SoundType", "SoundNet", "SoundAddr", "SoundPort", "SoundMDNS", "Complete", "NoError"]
